@@ -428,8 +428,10 @@ def run(prog, rep):
     from plint.wiring import result_tests
     _ru = prog.unit("pshm-posix.c")
     _nrt, _brt = result_tests(_ru)
-    rep.ob("C07.3", _brt[0][0] if _brt else sorted(_ru.functions.values(), key=lambda f_: f_.loc[0])[0], "result-tests", _nrt >= 5 and not _brt,
-           "%d tests of system call results put 0 (or a valid descriptor) on the success side" % _nrt if (_nrt >= 5 and not _brt) else
+    if _nrt < 2:
+        raise AnalysisBroken("result tests: only %d comparisons of system call results found in %s" % (_nrt, _ru.name))
+    rep.ob("C07.3", _brt[0][0] if _brt else sorted(_ru.functions.values(), key=lambda f_: f_.loc[0])[0], "result-tests", not _brt,
+           "%d tests of system call results put 0 (or a valid descriptor) on the success side" % _nrt if not _brt else
            ("line %d: `%s` in %s counts a successful call as failed (or descriptor 0 as no descriptor): what the call did in the kernel is not recorded in the object, or a valid "
             "descriptor is dropped" % (line(_brt[0][1]), _brt[0][2], _brt[0][0].name) if _brt else "fewer result tests than expected (%d)" % _nrt), _brt[0][1] if _brt else _ru.functions[sorted(_ru.functions)[0]].loc[0])
     check_error_contract(rep, "C07.2", prog, ['pshm-posix.c', 'pshm-sysv.c'], 15)
